@@ -81,6 +81,9 @@ func (iv *Value) ValueFor() any {
 func (iv *Value) ValueFrom(value any) {
 	vv, ok := value.(*Value)
 	if ok {
+		if vv == nil {
+			return
+		}
 		iv.ItemType = vv.ItemType
 		iv.ItemValue = vv.ItemValue
 		return
